@@ -119,6 +119,7 @@ func cmdDump(args []string) int {
 	tier := fs.String("tier", "quick", "")
 	coversOnly := fs.Bool("covers", false, "only solve the vacuity covers")
 	skip := fs.String("skip", "", "comma-separated contract keys to skip")
+	noSolve := fs.Bool("nosolve", false, "only generate the obligations and print their number")
 	fs.Parse(args)
 	p, err := loadAll(*prop)
 	if err != nil {
@@ -162,6 +163,15 @@ func cmdDump(args []string) int {
 		}
 		results = append(results, r)
 		allObls = append(allObls, r.Obls...)
+	}
+	if *noSolve {
+		for _, r := range results {
+			fmt.Printf("== %s: %d paths, %d obligation instances %s\n", r.Key, r.Paths, len(r.Obls), r.Err)
+			for _, a := range r.Assumptions {
+				fmt.Printf("  assume: %s\n", a)
+			}
+		}
+		return 0
 	}
 	tAll := time.Now()
 	discharge(allObls, work, *tier, 8)
